@@ -625,7 +625,7 @@ def tok_judge(ctx, cases_path, label, prefixes, keep=lambda c: True, extra_case=
     ctx.skipped += st["skip"]
     for idx, why in fails:
         rec = obs[idx - 1]
-        mine = [w for w in why if w.split(":")[0] in prefixes or ":" not in w or w.split(":")[0] in ("panic", "err", "hang", "harness_panic", "process_exit", "notrun")]
+        mine = [w for w in why if w.split(":")[0] in prefixes or ":" not in w or w.split(":")[0] in ("panic", "err", "hang", "harness_panic", "process_exit", "notrun", "history_dependent")]
         if mine:
             slim = {k: v for k, v in rec.items() if k not in ("vocab", "i2t", "t2i", "utf8", "dec1", "extras", "texts")}
             slim["texts"] = rec.get("texts", [])[:3]
@@ -848,7 +848,7 @@ def ws_judge(ctx, cases_path, label, prefix):
     ctx.skipped += st["skip"]
     for idx, why in fails:
         rec = obs[idx - 1]
-        mine = [w for w in why if w.split(":")[0] == prefix or w.split(":")[0] in ("panic", "err", "hang", "harness_panic", "process_exit", "notrun")]
+        mine = [w for w in why if w.split(":")[0] == prefix or w.split(":")[0] in ("panic", "err", "hang", "harness_panic", "process_exit", "notrun", "history_dependent")]
         if mine:
             vlib.report(ctx, mine, rec, component="ws", case=rec["case"])
     for idx, why in drifts:
